@@ -87,7 +87,14 @@ func removeSignature(cd []byte) []byte {
 	_ = binary.Read(bytes.NewReader(cd[size-10:size]), binary.LittleEndian, &tr)
 	if tr.Magic == trailerMagic {
 		size -= int(tr.TrailerSize) + 10
-		if size < 0 {
+		if size < 0 || tr.TrailerSize < 8 {
+			return cd
+		}
+		// only a frame that Verify would recognise is a signature: the header in
+		// front of the blob must carry the matching size
+		var hdr xapHeader
+		_ = binary.Read(bytes.NewReader(cd[size:size+8]), binary.LittleEndian, &hdr)
+		if hdr.SignatureSize != tr.TrailerSize-8 {
 			return cd
 		}
 		return cd[:size]
